@@ -916,6 +916,12 @@ def c09_work(task):
                     return core.split(oddf, fmt="raw", **base_kw, **long_kw, **ap)
                 if kind == "raw_audio_format":
                     return core.split(oddf, audio_format="raw", fmt="ogg", large_file=True, **base_kw, **long_kw, **ap)
+                if kind == "user_adapter":
+                    # a user-defined AudioSource subclass: the first channel of a stereo source whose other channel differs
+                    from .chk_sources import mono_view_class, interleave_with_noise
+
+                    inner = aio.BufferAudioSource(interleave_with_noise(data, sw), rate, sw, 2)
+                    return core.split(mono_view_class()(inner), **base_kw, **long_kw)
                 if kind == "buffer_source":
                     return core.split(aio.BufferAudioSource(data, rate, sw, ch), **base_kw, **long_kw)
                 if kind == "raw_source":
@@ -940,10 +946,23 @@ def c09_work(task):
 
             for kind in ("bytes", "region", "region_fn", "wav", "wav_path", "wav_lazy", "raw", "raw_lazy", "raw_fmt",
                          "raw_audio_format", "buffer_source", "raw_source", "wave_source", "reader", "reader_wav", "stdin", "stdin:1", "stdin:3",
-                         "WAV", "WAV_lazy", "Wave", "RAW", "RAW_lazy", "wavx", "wavx_lazy", "stdin_fd:%d,3" % (W * sw * ch - 1),
+                         "WAV", "WAV_lazy", "Wave", "RAW", "RAW_lazy", "wavx", "wavx_lazy",
+                         ) + (("user_adapter", "user_adapter_mr") if ch == 1 and uc is None else ()) + ( "stdin_fd:%d,3" % (W * sw * ch - 1),
                          "stdin:%d,2" % (W * sw * ch - 1)):
                 cov["evaluations"] += 1
                 try:
+                    if kind == "user_adapter_mr":
+                        from .chk_sources import mono_view_class, interleave_with_noise
+
+                        t_ = (len(data) // bps_ - max(1, W // 2)) / rate
+                        inner_ = aio.BufferAudioSource(interleave_with_noise(data, sw), rate, sw, 2)
+                        got = regions_sig(core.split(mono_view_class()(inner_), max_read=t_, **base_kw, **long_kw), rate)
+                        ref_ = regions_sig(core.split(data[: round(t_ * rate) * bps_], **base_kw, **long_kw, **ap), rate)
+                        msg = None if got == ref_ else "user adapter with max_read=%r gives %r, the first round(t*rate) samples give %r" % (
+                            t_, [(s, len(x)) for s, x in got], [(s, len(x)) for s, x in ref_])
+                        if msg:
+                            complain("container %s %s" % (kind, tag), msg, {"what": "container", "container": kind, "tuple": [mn, mx, ms], "uc": uc})
+                        continue
                     got = regions_sig(run(kind), rate)
                     msg = None if got == base else "container %s gives %r, raw bytes give %r" % (
                         kind, [(s, len(x)) for s, x in got], [(s, len(x)) for s, x in base])
